@@ -365,34 +365,44 @@ def extract_playback_tests(text):
     return out
 
 
-def run_playback(src, root, crate, hfile, tests, profile_release=False, timeout=900):
-    """Append generated unit tests to the overlay copy of the harness file and run them natively
-    with `cargo kani playback`. Returns dict test_name -> 'panicked' | 'passed' | 'error'."""
-    with open(hfile, "a") as f:
-        for t in tests:
-            f.write("\n" + t["body"] + "\n")
+def run_playback(src, root, crate, hfile_tests, profile_release=False, timeout=1800):
+    """Append generated unit tests to the overlay copies of the harness files and run them natively
+    with ONE `cargo kani playback` invocation for the crate (the test build dominates the cost).
+    hfile_tests: list of (harness file path, [test dicts]).
+    Returns dict test_name -> ('panicked' | 'passed' | 'error', message)."""
+    names = []
+    for hfile, tests in hfile_tests:
+        with open(hfile, "a") as f:
+            for t in tests:
+                f.write("\n" + t["body"] + "\n")
+                names.append(t["test_name"])
     results = {}
     tdir = os.path.join(root, "target-playback")
-    for t in tests:
-        cmd = ["cargo", "kani", "playback", "-Z", "concrete-playback", "-p", crate]
-        if profile_release:
-            cmd += ["--release"]
-        cmd += ["--", t["test_name"]]
-        e = env_offline()
-        e["CARGO_TARGET_DIR"] = tdir
-        try:
-            r = subprocess.run(cmd, cwd=src, capture_output=True, text=True, env=e, timeout=timeout)
-            out = r.stdout + r.stderr
-        except subprocess.TimeoutExpired:
-            results[t["test_name"]] = ("error", "playback timeout")
-            continue
-        if re.search(r"test result: FAILED|\.\.\. FAILED|panicked at", out) and t["test_name"] in out:
-            msg = "\n".join(l for l in out.splitlines() if "panicked at" in l or l.strip().startswith("assertion") or "overflow" in l)[:600]
-            results[t["test_name"]] = ("panicked", msg)
-        elif re.search(r"test result: ok\. [1-9]", out):
-            results[t["test_name"]] = ("passed", "")
+    cmd = ["cargo", "kani", "playback", "-Z", "concrete-playback", "-p", crate]
+    if profile_release:
+        cmd += ["--release"]
+    cmd += ["--", "kani_concrete_playback_", "--test-threads", "4"]
+    e = env_offline()
+    e["CARGO_TARGET_DIR"] = tdir
+    try:
+        r = subprocess.run(cmd, cwd=src, capture_output=True, text=True, env=e, timeout=timeout)
+        out = r.stdout + r.stderr
+    except subprocess.TimeoutExpired:
+        return {n: ("error", "playback timeout") for n in names}
+    for n in names:
+        m = re.search(r"^test \S*" + re.escape(n) + r" \.\.\. (\w+)", out, re.M)
+        if not m:
+            results[n] = ("error", out[-600:])
+        elif m.group(1) == "FAILED":
+            mm = re.search(r"---- \S*" + re.escape(n) + r" stdout ----\n(.*?)(?=\n---- |\nfailures:|\Z)", out, re.S)
+            msg = (mm.group(1) if mm else "")
+            msg = "\n".join(l for l in msg.splitlines() if "panicked at" in l or l.strip().startswith("assertion") or "overflow" in l
+                            or (l.strip() and not l.startswith("note:") and "stack backtrace" not in l))[:600]
+            results[n] = ("panicked", msg)
+        elif m.group(1) == "ok":
+            results[n] = ("passed", "")
         else:
-            results[t["test_name"]] = ("error", out[-800:])
+            results[n] = ("error", m.group(1))
     return results
 
 
